@@ -1447,7 +1447,7 @@ func ruleDagNodesLocks(r *Run) {
 				if strings.HasSuffix(w.fposFile(c.Parent()), "_test.go") {
 					continue
 				}
-				if _, exc := exceptionTable["R20.43|"+fname(c.Parent())+":calls:"+f.Name()]; exc {
+				if _, exc := r.exceptionFor("R20.43", fname(c.Parent())+":calls:"+f.Name()); exc {
 					continue
 				}
 				cs = append(cs, c)
